@@ -37,7 +37,6 @@ NOT_COVERED = [
     "*_unbiased, branch mode, sample sets, multiallelic weighting) - undocumented in this snapshot",
     "trait_linear_model with user covariates Z (only Z=None, i.e. intercept only)",
     "mode='node' for allele_frequency_spectrum is unsupported by tskit (only the error is checked)",
-    "time_windows of pair_coalescence_counts other than 'nodes'",
     "Coq models exist only for: the general framework (site/branch/node specification, the C "
     "branch sweep, the C site allele table), branch AFS with one polarised sample set, the "
     "relatedness-vector entries, rf_distance, the proportion shapes and the pair-coalescence span; "
@@ -46,7 +45,8 @@ NOT_COVERED = [
     "are checked by the exact Python oracles only",
     "real thread interleavings (GIL release in _tskitmodule.c): only repeated runs with "
     "num_threads in {1,2,3,8} are compared; the chunk/combine logic is proved in Coq",
-    "non-dyadic window breakpoints and non-integer edge coordinates (exactness of the oracle)",
+    "non-integer edge coordinates / node times (exactness of the oracle); window breakpoints "
+    "are arbitrary rationals (halves..sevenths)",
 ]
 
 
@@ -109,8 +109,11 @@ def random_windows(rng, desc, kind=None):
     kind = kind or rng.choice(["none", "trees", "sites", "list", "list", "list", "list"])
     if kind != "list":
         return kind
-    den = rng.choice([1, 2, 2, 4])
-    cand = list(range(1, L * den))
+    # dyadic breakpoints are exact floats; thirds / fifths / sevenths are not: the
+    # implementation then sees the nearest double (harmless at 1e-9 because sites sit on the
+    # half-integer lattice and tree breakpoints on integers, never on such a breakpoint)
+    den = rng.choice([1, 2, 2, 4, 3, 5, 7])
+    cand = [p for p in range(1, L * den) if den in (1, 2, 4) or (2 * p) % den != 0]
     k = rng.randrange(0, min(len(cand), 5) + 1)
     pts = sorted(rng.sample(cand, k))
     return [[0, 1]] + [enc(Fr(p, den)) for p in pts] + [[L, 1]]
@@ -532,6 +535,14 @@ def rat(x):
     return Fr(x)
 
 
+def coq_stat_expr(desc, W, k, sf, mode, polarised):
+    """Coq term of type Q -> Q -> Q: the specification statistic (site / branch mode)"""
+    pol = "true" if polarised else "false"
+    if mode == "site":
+        return "(site_stat %d%%nat (sf_eval %s) %s %s %s)" % (k, sf, coq_W(W), pol, coq_sites(desc))
+    return "(branch_stat %d%%nat (sf_eval %s) %s %s %s %s)" % (k, sf, coq_W(W), coq_times(desc), pol, coq_segs(desc))
+
+
 def table_index(ts):
     """the sorted edge table and the index arrays the C sweep walks (integer coordinates)"""
     t = ts.tables
@@ -562,6 +573,9 @@ def coq_stat_check(desc, W, k, sf, mode, polarised, span_normalise, wins, values
             # the Gallina port of the C running-sum sweep on the same tables / indexes
             t += (" && check_incremental (branch_incremental %d%%nat (polar %d%%nat (sf_eval %s) %s %s) %s %s %s %s) %s %s %s" % (
                 k, k, sf, coq_W(W), pol, coq_times(desc), coq_W(W), coq_edges(tab, desc["L"]), ws, nrm, ws, exp))
+            # hypothesis of theorem branch_incremental_window_accounting: the visited trees tile [0,L)
+            t += " && trace_tiles_b (branch_trace %d%%nat (polar %d%%nat (sf_eval %s) %s %s) %s %s %s) 0 %s" % (
+                k, k, sf, coq_W(W), pol, coq_times(desc), coq_W(W), coq_edges(tab, desc["L"]), cq(desc["L"]))
         return t
     return "check_windows_nodes (fun u => node_stat %d%%nat (sf_eval %s) %s %s %s u) %d%%nat %s %s %s" % (
         k, sf, coq_W(W), pol, coq_segs(desc), len(desc["nodes"]), nrm, ws, exp)
@@ -1043,7 +1057,64 @@ class NamedStat(Family):
                     "true" if case["span_normalise"] else "false", coq_times(desc), Wq, s_, coq_segs(desc),
                     cqlist([fr(x) for x in case["wins"]]), cqlist([rat(v) for v in vals])))
             return " && ".join(terms)
-        if "err" in obs or not (st in ONE_WAY or st in K_WAY or st == "genetic_relatedness"):
+        if "err" in obs:
+            return None
+        desc = case["desc"]
+        smp = samples_of(desc)
+        ns = len(smp)
+        if st in ("trait_covariance", "trait_correlation", "trait_linear_model", "genetic_relatedness_weighted"):
+            # weight statistics as instances of the general specification (first output column)
+            Wm = [[fr(x) for x in row] for row in case["W"]]
+            kc = len(Wm[0])
+            pol = False
+            if st == "trait_covariance":
+                if ns < 2:
+                    return None
+                mean = [sum(r[j] for r in Wm) / ns for j in range(kc)]
+                W = {s_: [Wm[i][j] - mean[j] for j in range(kc)] for i, s_ in enumerate(smp)}
+                k, sf = kc, "(SF_trait_cov %s 0)" % cq(ns)
+            elif st == "trait_correlation":
+                mean = [sum(r[j] for r in Wm) / ns for j in range(kc)]
+                var0 = sum((r[0] - mean[0]) ** 2 for r in Wm) / Fr(ns - 1)
+                W = {s_: [Wm[i][j] - mean[j] for j in range(kc)] + [Fr(1)] for i, s_ in enumerate(smp)}
+                k, sf = kc + 1, "(SF_trait_corr %s %s 0 %d)" % (cq(ns), cq(var0), kc)
+            elif st == "trait_linear_model":
+                W = {s_: Wm[i] + [Fr(1)] for i, s_ in enumerate(smp)}
+                k, sf = kc + 1, "(SF_trait_lm %s %s 0 %d)" % (cq(ns), cq(sum(r[0] for r in Wm)), kc)
+            else:
+                i0, j0 = case["indexes"][0]
+                colsum = [sum(r[j] for r in Wm) for j in range(kc)]
+                W = {s_: Wm[i] + [Fr(1, ns)] for i, s_ in enumerate(smp)}
+                k, sf = kc + 1, "(SF_grw %s %s %s %d %d %d)" % ("true" if case["centre"] else "false",
+                                                                  cq(colsum[i0]), cq(colsum[j0]), i0, j0, kc)
+                pol = case["polarised"]
+            out = obs["out"] if case["windows"] not in (None, "none") else [obs["out"]]
+            dropped = case["drop"] is not None
+            if case["mode"] == "node":
+                vals = [(node if dropped else node[0]) for win in out for node in win]
+            else:
+                vals = [(win if dropped else win[0]) for win in out]
+            return coq_stat_check(desc, W, k, sf, case["mode"], pol, case["span_normalise"],
+                                  [fr(x) for x in case["wins"]], vals, obs.get("tab"))
+        if st == "Fst" and case["mode"] in ("site", "branch"):
+            sets = case["sets"]
+            n = [len(A) for A in sets]
+            u, v = case["indexes"][0]
+            if n[u] < 2 or n[v] < 2:
+                return None
+            out = obs["out"] if case["windows"] not in (None, "none") else [obs["out"]]
+            vals = [(win if case["drop"] is not None else win[0]) for win in out]
+            W = indicator_W(desc, sets)
+            nq = cqlist(n)
+            ws = cqlist([fr(x) for x in case["wins"]])
+            nrm = "true" if case["span_normalise"] else "false"
+
+            def wv(sf):
+                return "(win_values %s %s %s)" % (coq_stat_expr(desc, W, len(sets), sf, case["mode"], False), nrm, ws)
+            exp = "[" + "; ".join("None" if isinstance(x, str) else "(Some %s)" % cq(rat(x)) for x in vals) + "]"
+            return "fst_check %s %s %s %s" % (wv("(SF_diversity %s %d)" % (nq, u)), wv("(SF_diversity %s %d)" % (nq, v)),
+                                              wv("(SF_divergence %s %d %d)" % (nq, u, v)), exp)
+        if not (st in ONE_WAY or st in K_WAY or st == "genetic_relatedness"):
             return None
         sets = case["sets"]
         n = [len(A) for A in sets]
@@ -1716,6 +1787,13 @@ class Dedicated(Family):
                 case["wins"] = [enc(w) for w in resolve_windows(desc, case["windows"])]
                 case["span_normalise"] = rng.random() < 0.5
                 case["pair_normalise"] = rng.random() < 0.4
+                case["time_windows"] = None
+                if rng.random() < 0.35:
+                    tmax = max(nd[1] for nd in desc["nodes"]) + 1
+                    pts = sorted(rng.sample(range(1, 2 * tmax + 1), min(2 * tmax, rng.randrange(0, 4))))
+                    case["time_windows"] = [[0, 1]] + [enc(Fr(p_, 2)) for p_ in pts] + ([None] if rng.random() < 0.6 else [])
+                    if len(case["time_windows"]) < 2:
+                        case["time_windows"].append(None)
             yield case
 
     def observe(self, case):
@@ -1733,6 +1811,8 @@ class Dedicated(Family):
                 w = [float(fr(x)) for x in case["wins"]]
             kw = dict(sample_sets=case["sets"], indexes=None if case["indexes"] is None else [tuple(t) for t in case["indexes"]],
                       windows=w, pair_normalise=case["pair_normalise"])
+            if case.get("time_windows"):
+                kw["time_windows"] = [float("inf") if x is None else float(fr(x)) for x in case["time_windows"]]
             return {"out": encf(ts.pair_coalescence_counts(span_normalise=case["span_normalise"], **kw)),
                     "raw": encf(ts.pair_coalescence_counts(span_normalise=False, **kw)),
                     "norm": encf(ts.pair_coalescence_counts(span_normalise=True, **kw))}
@@ -1760,8 +1840,25 @@ class Dedicated(Family):
             if idx is None:
                 idx = [[0, 0]] if len(sets) == 1 else [[0, 1]]
             wins = [fr(x) for x in case["wins"]]
-            exact = pair_coalescence_exact(desc, sets, [tuple(t) for t in idx], wins,
-                                           case["span_normalise"], case["pair_normalise"])
+            def bins(rows):
+                """time_windows: node counts added up per half-open time interval"""
+                tw = case.get("time_windows")
+                if not tw:
+                    return rows
+                edges_ = [None if x is None else fr(x) for x in tw]
+                times = [Fr(nd[1]) for nd in desc["nodes"]]
+                out_ = []
+                for row in rows:
+                    acc = [Fr(0)] * (len(edges_) - 1)
+                    for u, v in enumerate(row):
+                        for b_ in range(len(edges_) - 1):
+                            hi_ = edges_[b_ + 1]
+                            if edges_[b_] <= times[u] and (hi_ is None or times[u] < hi_):
+                                acc[b_] += v
+                    out_.append(acc)
+                return out_
+            exact = [bins(win) for win in pair_coalescence_exact(desc, sets, [tuple(t) for t in idx], wins,
+                                                                 case["span_normalise"], case["pair_normalise"])]
             if case["indexes"] is None:
                 exact = [e[0] for e in exact]
             if case["windows"] in (None, "none"):
@@ -1771,7 +1868,7 @@ class Dedicated(Family):
             key = "definition/%s" % what
             if what == "pair_coalescence_counts" and case["span_normalise"]:
                 # finding C08-F3: is it exactly the code's window-span bookkeeping?
-                raw = pair_coalescence_exact(desc, sets, [tuple(t) for t in idx], wins, False, case["pair_normalise"])
+                raw = [bins(win) for win in pair_coalescence_exact(desc, sets, [tuple(t) for t in idx], wins, False, case["pair_normalise"])]
                 spans = pcc_code_spans(desc, wins)
                 buggy = [[[(v / sp if sp else Fr(0)) for v in row] for row in win] for win, sp in zip(raw, spans)]
                 if case["indexes"] is None:
